@@ -27,7 +27,7 @@ where
     for<'a> K: Key<'a> + AsRef<K> + 'static,
 {
     let plan = ctx.plan.clone();
-    let sess = SessionPlan { lazy_init: false, pre: vec![], clients: vec![vec![]], end: SessionEnd::Close, validate_data: Some(false), ignore_corrupted: Some(false), bloom_alt: None, bloom_use_alt: false };
+    let sess = SessionPlan { lazy_init: false, pre: vec![], clients: vec![vec![]], end: SessionEnd::Close, validate_data: Some(false), ignore_corrupted: Some(false), bloom_alt: None, bloom_use_alt: false, bloom_alt_off: false };
     let mut st: Storage<K> = build_storage::<K>(&plan.store, &sess, dir);
     if let Err(e) = st.init().await {
         return Err(format!("init on the tool output returned Err({})", err_kind(&e)));
